@@ -89,14 +89,14 @@ def run_one(seed, tape, opts):
     sim.after_step = oracle
 
     def done():
-        return bool(order.violation) or (a.is_closed and b.is_closed and
-                                         w.scripts_done())
+        return bool(order.violation or prefix.violation) or (
+            a.is_closed and b.is_closed and w.scripts_done())
     sim.run(4000, until=done)
     w.heal()
     r = sim.run(8000, until=done, max_time=900)
     # late gets: after the closed notification has been seen
     late = []
-    if not order.violation:
+    if not order.violation and not prefix.violation:
         for c in (a, b):
             if c.api == "deferred" and c.is_closed:
                 for k in GETS:
@@ -105,6 +105,13 @@ def run_one(seed, tape, opts):
         sim.run(200, max_time=5)
     w.finish()
     v = order.violation
+    if not v and prefix.violation:
+        # the i-th message event carries the i-th message the peer sent: a
+        # message delivered twice (or another one in its place) is an event
+        # occurring more than once
+        v = dict(prefix.violation, key="C18.message_not_once",
+                 clause="each application message is delivered at most once, "
+                        "in the order sent")
     if not v and r == "until":
         for c in (a, b):
             for rec in c.extra_gets:
